@@ -3,20 +3,28 @@ CONFIG = {
     "passes": [
         {"name": "default", "pkg": "c01", "bin": "c01", "driver": "drv_c01"},
         {"name": "docker", "pkg": "c01", "bin": "c01_docker", "driver": "drv_c01", "tags": "docker"},
+        # race detector over the histories and the concurrent .fav saves (a reported race is a P-hat failure)
+        {"name": "race", "pkg": "c01", "bin": "c01_race", "driver": "drv_c01", "build_flags": ["-race"],
+         "thorough_only": True, "args": ["-only", "conc"],
+         "wrap": ["env", "GORACE=exitcode=0 log_path=/tmp/verif-c01-race"]},
     ],
     "trusted_base": [
         "frozen pttbbs layouts lean/PttVerif/Spec/C01Frozen.lean + go/cmd/c01/frozen.go: hand transcription of pttstruct.h / fav.h / c-pttbbs/shm_offset.c (the pttbbs submodule is empty in this checkout); anchored on the documented sizes 512/256/128/128/100/12/3484/100 (theorems Frozen.anchor_*)",
         "go/types gc/amd64 Sizes (second opinion on the alignment rule; theorems aligned_eq_compiler_*), validated against the compiled code by the harness (reflect offsets, unsafe.Sizeof via the *_SZ constants, binary.Size)",
         "encoding/binary writes the fields of a struct back to back, little endian (modelled as the packed layout; the harness compares binary.Size walks and whole images with it on every run)",
         "lseek/write/read on regular files: modelled by writeAt/readAt (holes read as zeros)",
+        "a failing write(2) (/dev/full, read-only descriptor, RLIMIT_FSIZE) writes nothing; the Go scheduler/kernel produce only interleavings of the encode and write steps of concurrent BinWrite calls (the stress explores some of them, the theorem covers all); the Go race detector in the thorough-only pass",
     ],
     "modelled": ["cmbbs.PasswdQuery", "cmbbs.PasswdQueryPasswd", "cmbbs.PasswdQueryUserLevel", "cmbbs.PasswdUpdatePasswd",
                  "cmbbs.PasswdUpdateEmail", "cache.passwdUpdateMoney (through cache.SetUMoney)", "cmbbs.PasswdGetUserLevel2",
                  "cmbbs.PasswdUpdateUserLevel2 + passwdCheckPasswd2", "types.BinaryRead/BinaryWrite/BinWrite on the record types",
-                 "ptttype.UID.IsValid/ToUIDInStore"],
+                 "ptttype.UID.IsValid/ToUIDInStore",
+                 "histories: failing record/field writes (ENOSPC, EFBIG, EBADF, encoder error) followed by field updates, whole-record writes and cmsys.AppendRecord(.post)",
+                 "fav.FavRaw.Save/WriteFavrec board entries (types.BinWrite), sequentially and by several users at the same time (interleaving semantics of encode/write steps)"],
     "assumptions": [
         "two build configurations exist (default tags, -tags docker); a further configuration file would need a third Gen/Layout*.lean",
         "field-level statements are about the top-level fields of each record type; nested record types (MsgQueueRaw, UserInfoRaw, BoardHeaderRaw, shmGV2 inside SHMRaw/UserInfoRaw) are covered by their own theorems and the array stride is the element's in-memory size",
+        "the concurrency theorem is about the step semantics (each call encodes into storage of its own, then writes); that the code has this shape is checked by the stress + race pass, not proved",
         "the time stamp PasswdUpdateUserLevel2 writes is an observation fed back into the op line (wall clock is not modelled)",
     ],
 }
